@@ -39,7 +39,7 @@ def main():
                 print("PATCH FAILED", r.stdout, r.stderr)
                 return 2
         else:
-            p = os.path.join(d, rel)
+            p = os.path.join(d, rel if rel.startswith("wannierberri/") else "wannierberri/" + rel)
             s = open(p).read()
             if s.count(old) != 1:
                 print(f"ERROR: old text occurs {s.count(old)} times in {rel}")
